@@ -276,6 +276,7 @@ def run_property(pid, tier, seed, jobs=None, write_baseline=False, only_units=No
             notes=notes[:60],
             samples=samples or [dict(obligation=o["name"], status=o["status"]) for o in obls[:5]],
             solver_seconds=round(sum(o["seconds"] for o in obls), 2),
+            lean_lemmas=[ll for k, r in sorted(results.items()) for ll in r["extra"].get("lean_lemmas", [])],
             self_test=self_test, cross_check={k: v for k, v in (cross_check or {}).items() if k != "failures"} or None,
             unit_seconds={k[1]: round(r["seconds"], 2) for k, r in sorted(results.items())},
         ),
